@@ -275,16 +275,19 @@ def small_trees(seed, pl=16384):
 
 def make_metafile(d, name, tree, version, pl=16384, **opts):
     """create a metafile with the real creators; returns (metafile path, payload path)"""
-    from torrentfile.torrent import TorrentFile, TorrentAssembler
+    from torrentfile import torrent as _t
     p = ref.write_tree(d, name, tree)
     out = os.path.join(d, f"{name}.v{version}.torrent")
     kw = dict(path=p, piece_length=pl, progress=0, outfile=out)
     kw.update(opts)
+    creator = kw.pop("creator", None)          # the class-per-version creators instead of the command line's assembler
     with quiet():
         if version == 1:
-            t = TorrentFile(**kw)
+            t = _t.TorrentFile(**kw)
+        elif creator:
+            t = getattr(_t, creator)(**kw)
         else:
-            t = TorrentAssembler(meta_version=str(version), **kw)
+            t = _t.TorrentAssembler(meta_version=str(version), **kw)
         t.write()
     return out, p
 
@@ -552,21 +555,31 @@ def c06_trees(seed):
     pl = 16384
     c = lambda tag, n: content(seed, tag, n)      # noqa: E731
     many = {f"f{i:02d}": c(f"m{i}", pl * 2 + i * 7 + 1) for i in range(7)}
+    # a directory beside siblings whose names extend its name with characters below and above '/' (0x2f): a flat sort of whole
+    # path strings orders these differently from a per-component sort
+    prefixes = {"docs": {"b": c("pb", pl + 1), "a": c("pa", 7)}, "docs.txt": c("p1", 5), "docs-x": c("p2", pl + 3), "docs!": c("p3", 1),
+                "docs 1": c("p4", 9), "docs0": c("p5", 2 * pl + 1), "docs_z": {"docs": c("p6", 4), "docs.": c("p7", 6)}}
     return small_trees(seed)[:3] + [("many", many), ("nested", {"z": {"b": c("zb", pl + 1), "a": c("za", 3 * pl)}, "a": c("a", 2 * pl + 5),
-                                                            "é": c("e", 5), "B": c("B", pl * 4)})] + small_trees(seed)[3:]
+                                                            "é": c("e", 5), "B": c("B", pl * 4)})] + small_trees(seed)[3:] + [("prefixes", prefixes)]
 
 
 @harness("C06")
 def h_c06(tier, seed, hints):
     acc = Acc("C06", "metafiles written by create (all versions x option combinations x trees with several files larger than a piece) "
               "and by edit sequences, decoded with a strict canonical decoder; plus the structure each version requires",
-              "5 trees, piece lengths 16K/32K, 4 option sets, 3 versions; edit sequences as in C07")
+              "8 trees (incl. a directory beside siblings extending its name with characters below and above '/'), piece lengths 16K/32K, "
+              "4 option sets + aligned v1 + the per-version creator classes, 3 versions; edit sequences as in C07")
     optsets = [{}, {"announce": ["http://t/a"], "comment": "c", "private": True, "source": "s", "url_list": ["http://w"], "httpseeds": ["http://h"]},
                {"url_list": ["http://w/1", "http://w/2"]}, {"private": True}]
+    ntrees = len(c06_trees(seed))
     for version in (1, 2, 3):
-        for ti in range(7):
+        # every creator that writes this version: the assembler behind the command line, the per-version classes, and for v1
+        # the piece-aligned layout (padding entries)
+        extra = {1: [{"align": True}, {"align": True, "comment": "c", "private": True}], 2: [{"creator": "TorrentFileV2"}],
+                 3: [{"creator": "TorrentFileHybrid"}]}[version]
+        for ti in range(ntrees):
             for pl in ((16384,) if tier == "quick" else (16384, 32768)):
-                for oi, opts in enumerate(optsets):
+                for oi, opts in enumerate(optsets + extra):
                     for sd in ((seed,) if tier == "quick" else (seed, seed + 1, seed + 2)):
                         case = {"prop": "C06", "version": version, "tree": ti, "pl": pl, "opts": opts, "seed": sd}
                         _c06_case(acc, case)
